@@ -1352,6 +1352,10 @@ class InterpExpr:
         vals = [v for _, v in pairs]
         v0 = vals[-1]
         if all(isinstance(v, HeapVal) for v in vals):
+            if any(type(v) is not type(v0) for v in vals):
+                # `some_list or some_set`: one reference term must not be read through the heap arrays of another kind
+                # (speculative evaluation then gives up and the caller forks on the condition instead)
+                raise Unsupported('if-then-else over heap values of different kinds (list / set / dict / object)')
             t = v0.ref
             for c, v in reversed(pairs[:-1]):
                 t = z3.If(self.as_bool(c), v.ref, t)
